@@ -36,7 +36,7 @@ func init() {
 		Run: run,
 		Floors: func(t string) map[string]int64 {
 			return map[string]int64{"geom.with_empty_member": 1000, "geom.empty_run>=2": 100, "geom.empty_collection": 50, "box.touching": 100, "box.empty_operand": 100, "box.sep_one_axis": 100, "box.extreme_extent": 500, "box.pair_meeting_at_an_infinity": 300, "geom.long_path": 200, "geom.collections_nested_5_to_10_deep": 500, "storage.paths_share_one_backing_array": 3000, "geom.long_path>=4096": 60,
-				"type.Point": 10, "type.MultiPoint": 10, "type.LineString": 10, "type.MultiLineString": 10, "type.Polygon": 10, "type.MultiPolygon": 10, "type.GeometryCollection": 10, "type.*Bounds": 10}
+				"type.Point": 10, "type.MultiPoint": 10, "type.LineString": 10, "type.MultiLineString": 10, "type.Polygon": 10, "type.MultiPolygon": 10, "type.GeometryCollection": 10, "type.*Bounds": 10, "geom.empty_box_as_geometry_or_member": 300}
 		},
 	})
 }
@@ -139,6 +139,7 @@ func runGeom(c *core.Ctx) {
 		Kinds:      []int{gen.KPoint, gen.KMultiPoint, gen.KLineString, gen.KMultiLineString, gen.KPolygon, gen.KMultiPolygon, gen.KCollection, gen.KBounds},
 		Coord:      coord,
 		MaxMembers: 5, MaxVerts: 4, MinVerts: 0, MinMembers: 0, MaxDepth: 4,
+		EmptyBoxes: 0.15,
 	}
 	// all kinds evenly at top level
 	k := o.Kinds[r.Intn(len(o.Kinds))]
@@ -222,6 +223,9 @@ func runGeom(c *core.Ctx) {
 	c.Count("type." + name)
 	want := gen.Flatten(g)
 	hasEmpty, maxRun, emptyColl := emptyStats(g)
+	if hasEmptyBox(g) {
+		c.Count("geom.empty_box_as_geometry_or_member")
+	}
 	if hasEmpty {
 		c.Count("geom.with_empty_member")
 	}
@@ -372,6 +376,21 @@ func randBox(r *gen.R) *geom.Bounds {
 		y1 = y0
 	}
 	return &geom.Bounds{Min: geom.Point{X: math.Min(x0, x1), Y: math.Min(y0, y1)}, Max: geom.Point{X: math.Max(x0, x1), Y: math.Max(y0, y1)}}
+}
+
+// hasEmptyBox reports whether g is, or holds at any depth, an empty *Bounds.
+func hasEmptyBox(g geom.Geom) bool {
+	switch t := g.(type) {
+	case *geom.Bounds:
+		return t != nil && isEmpty(t)
+	case geom.GeometryCollection:
+		for _, m := range t {
+			if hasEmptyBox(m) {
+				return true
+			}
+		}
+	}
+	return false
 }
 
 func isEmpty(b *geom.Bounds) bool { return b.Max.X < b.Min.X || b.Max.Y < b.Min.Y }
